@@ -101,18 +101,18 @@ def work_forms(p):
             e = float(np.abs(G - E).max()) / s
             acc.resid("ctor_form." + form, e)
             q = {"pi_minus_angle": PI - se3.rangle(E[:3, :3])}
-            if e > TOL:
+            if not (e <= TOL):
                 acc.violation("ctor_form", case, e, TOL, q)
             # both representations of the constructed object agree with the pose
             e2 = float(np.abs(se3.T_from_taa(t.gTAA().reshape(6)) - E).max()) / s
-            if e2 > TOL:
+            if not (e2 <= TOL):
                 acc.violation("ctor_form", dict(case, via="gTAA"), e2, TOL, q)
             # reading then setting the quaternion is the identity
             t2 = t.copy()
             t2.setQuat(t2.getQuat())
             e3 = float(np.abs(t2.gTM() - G).max()) / s
             acc.resid("quat_roundtrip", e3)
-            if e3 > TOL:
+            if not (e3 <= TOL):
                 acc.violation("quat_roundtrip", case, e3, TOL, q)
         except Exception as ex:
             acc.violation("raised", case, repr(ex))
@@ -140,7 +140,7 @@ def work_triples(p):
             def res(name, got, want, scale=s, q=None):
                 e = float(np.abs(got - want).max()) / scale
                 acc.resid(name, e if not (q and 0 < q.get("pi_minus_angle", 1) < 3e-5) else 0.0)
-                if e > TOL:
+                if not (e <= TOL):
                     acc.violation(name, case, e, TOL, q)
             res("matmul", (a @ b).gTM(), AB)
             res("matmul_array", (a @ b.gTM()).gTM(), AB)
@@ -197,11 +197,11 @@ def replay(rec):
         try:
             t, E = build(c["form"], P[0][0], P[0][1], tm)
             s = max(1.0, float(np.abs(P[0][0]).max()))
-            if np.abs(t.gTM() - E).max() / s > TOL or np.abs(se3.T_from_taa(t.gTAA().reshape(6)) - E).max() / s > TOL:
+            if not (np.abs(t.gTM() - E).max() / s <= TOL and np.abs(se3.T_from_taa(t.gTAA().reshape(6)) - E).max() / s <= TOL):
                 acc.violation("ctor_form", c)
             t2 = t.copy()
             t2.setQuat(t2.getQuat())
-            if np.abs(t2.gTM() - t.gTM()).max() / s > TOL:
+            if not (np.abs(t2.gTM() - t.gTM()).max() / s <= TOL):
                 acc.violation("quat_roundtrip", c)
         except Exception as ex:
             acc.violation("raised", c, repr(ex))
